@@ -123,6 +123,28 @@ structure RoundOut where
   probes : List Nat
   deriving Repr
 
+/-- The per-path goroutine's attempt loop in MeasureClockOffsetSCION (`for j := range n { t, o, e :=
+    ntpc.measureClockOffsetSCION(…); if e == nil { ts, off, err = t, o, e; … } else { if nerr == j
+    { err = e }; nerr++ } }`), for a client that does not enter interleaved mode inside the loop:
+    `outs[j]` = attempt `j` succeeded. State: the reported error (`none` = nil, `some k` = the
+    error of attempt `k`), the attempt whose value is reported, `nerr`, `j`. Result: (reported
+    error is nil, attempt whose timestamp/offset is reported). -/
+def attemptLoopGo : List Bool → Option Nat → Option Nat → Nat → Nat → Bool × Option Nat
+  | [], err, val, _, _ => (err.isNone, val)
+  | true :: rest, _, _, nerr, j => attemptLoopGo rest none (some j) nerr (j + 1)
+  | false :: rest, err, val, nerr, j =>
+    attemptLoopGo rest (if nerr == j then some j else err) val (nerr + 1) (j + 1)
+
+def attemptLoop (outs : List Bool) : Bool × Option Nat := attemptLoopGo outs none none 0 0
+
+/-- the seeded variant "report the most recent error" (`err = e` on every failure) -/
+def attemptLoopLastErrGo : List Bool → Option Nat → Option Nat → Nat → Bool × Option Nat
+  | [], err, val, _ => (err.isNone, val)
+  | true :: rest, _, _, j => attemptLoopLastErrGo rest none (some j) (j + 1)
+  | false :: rest, _, val, j => attemptLoopLastErrGo rest (some j) val (j + 1)
+
+def attemptLoopLastErr (outs : List Bool) : Bool × Option Nat := attemptLoopLastErrGo outs none none 0
+
 /-- one value per participant: the offset of a successful exchange (`some off`) or the zero
     measurement left in `ms` for a failed one (collectMeasurements stores successes only) -/
 def values (sps : List (Option Path)) (succ : List (Option Int)) : List Int :=
